@@ -7,7 +7,7 @@ THEOREM_FILE = "Props/C04.v"
 # coherence of the model copies (tools/claims/COH.json): obligations of this check on every run; five files so that they
 # are re-checked in parallel
 EXTRA_THEOREM_FILES = ["Props/Coherence.v", "Props/Coherence_Order.v", "Props/Coherence_Cidrs.v", "Props/Coherence_Text.v",
-                       "Props/Coherence_Words.v"]
+                       "Props/Coherence_Words.v", "Props/C04_src.v"]
 RULE = ("contains: containers (IPNetwork with/without host bits, IPRange, IPGlob, IPListMixin subclasses) drawn from the "
         "arenas, from every prefix 0..width at the bottom/top/middle of both address spaces and from random blocks; for "
         "each container, operands (IPAddress, IPNetwork with/without host bits, IPRange, IPGlob where glob-shaped, address "
